@@ -1,5 +1,5 @@
 (* C10 - Receive Maximum is never exceeded; the send quota neither leaks nor overflows. *)
-From Poster Require Import Model.Client Proofs.BytesP Proofs.ClientP Proofs.QuotaP Proofs.HandshakeP.
+From Poster Require Import Model.Sim Proofs.BytesP Proofs.ClientP Proofs.QuotaP Proofs.HandshakeP Proofs.SimInvP Proofs.SettleP Proofs.RefineP Proofs.OwnP Proofs.TraceP.
 
 (* unconditional, any broker: 0 <= quota <= Receive Maximum is preserved by every handler, so
    the u16 quota can neither underflow nor grow beyond R *)
@@ -84,3 +84,14 @@ Proof.
   apply N.sub_add. exact H.
 Qed.
 Print Assumptions C10_resume.
+
+(* the same accounting for a whole poll of the Context task of the script layer: its history (TraceP.trace: the inbound
+   packets the framing layer yields and the queued requests, in the order the run loop takes them) run through the
+   ghost accounting of C10_exact - whenever it is conformant, quota + in-flight = R holds again when the task rests *)
+Theorem C10_after_poll : forall (s : sys) (g : list key) (s' : sys) (g' : list key),
+  cph s = CRunning -> hold s = false -> ctx_alive s = true -> wbudget s = None ->
+  quota (c s) + lenN g = rmax (c s) ->
+  conf_run s g (trace (settle_fuel s) s) = Some (s', g') ->
+  quota (c (settle s)) + lenN g' = rmax (c (settle s)) /\ rmax (c (settle s)) = rmax (c s) /\ lenN g' <= rmax (c s).
+Proof. exact quota_after_poll. Qed.
+Print Assumptions C10_after_poll.
